@@ -91,11 +91,24 @@ def delayed_doc(rng):
     return doc, pre, cont, other
 
 
+def aged_doc(rng):
+    """two delayed events pending at the snapshot that were sent at different times: the one sent first has the longer delay but is
+    due first. The snapshot must carry what is LEFT of each delay; the final state tells in which order they arrived"""
+    slow = rng.choice([560, 640, 720]); wait = rng.choice([300, 400]); quick = slow - wait + 150
+    doc = ('<scxml xmlns="http://www.w3.org/2005/07/scxml" version="1.0" datamodel="null" initial="s0">'
+           '<state id="s0"><onentry><send event="a" delay="%dms"/></onentry><transition event="n" target="s1"/></state>'
+           '<state id="s1"><onentry><send event="b" delay="%dms"/></onentry><transition event="a" target="gotA"/><transition event="b" target="gotB"/></state>'
+           '<state id="gotA"><transition event="b" target="AB"/></state><state id="gotB"><transition event="a" target="BA"/></state>'
+           '<state id="AB"/><state id="BA"/></scxml>' % (slow, quick))
+    other = '<scxml xmlns="http://www.w3.org/2005/07/scxml" version="1.0" datamodel="null"><state id="x"/><state id="y"/></scxml>'
+    return doc, ["=%d" % wait, "n"], ["~1000"], other
+
+
 def suite_delayed(ctx, n):
     rng = ctx.rng
     lines, docs = [], []
-    for _ in range(n):
-        doc, pre, cont, other = delayed_doc(rng)
+    for k in range(n):
+        doc, pre, cont, other = delayed_doc(rng) if k % 4 else aged_doc(rng)
         for engine in ("large", "fast"):
             lines.append("%s\t-\t%s\t%s\t%s\t%s" % (engine, ",".join(pre) or "-", ",".join(cont) or "-", hexs(doc), hexs(other))); docs.append(doc)
     outs = run_serial(ctx, lines)
@@ -179,7 +192,7 @@ def run(ctx):
     ctx.coverage["evaluations"] = st["inputs"]
     ctx.coverage["distinct_nontrivial"] = st["identical"]
     ctx.coverage["rule"] = "random charts x prefix history; snapshot at the first stable configuration after the last prefix event (self-sent external events may be pending); serialize, deserialize into a fresh interpreter for the same document and for another one, run the continuation on both; both engines, null and lua (2 variables) datamodels; identical = same notifications, logs, configurations and a second snapshot that is byte-identical; plus the late-data family (lua, binding late/early, <data> inside states of a ring, counted up on entry and tested by conditions, snapshot anywhere in the history)"
-    ctx.assumptions += ["invokers are not in the generated fragment (see DESIGN.md C14 partial)", "pending delayed events: differential only (the Lean snapshot model covers the engine state and the external queue), after every continuation step the harness waits until 1000 ms pass without an event (delays are 120-440 ms)"]
+    ctx.assumptions += ["invokers are not in the generated fragment (see DESIGN.md C14 partial)", "pending delayed events: differential only (the Lean snapshot model covers the engine state and the external queue), after every continuation step the harness waits until 1000 ms pass without an event (delays are 120-440 ms); every fourth document has two pending events of different age whose order of arrival depends on the snapshot carrying the remaining, not the original, delays (margins of 150 ms)"]
 
 
 def replay(ctx, path):
